@@ -295,7 +295,7 @@ func (tc *TypeCtx) WellTyped(v Term, t types.Type, depth int) Term {
 	case *types.Pointer, *types.Map, *types.Chan:
 		return Term{fmt.Sprintf("(>= %s 0)", v.S), SBool}
 	case *types.Slice:
-		return Term{fmt.Sprintf("(and (>= (sl.base %s) 0) (>= (sl.off %s) 0) (>= (sl.len %s) 0) (<= (sl.len %s) (sl.cap %s)) (<= (sl.cap %s) 9223372036854775807) (=> (= (sl.base %s) 0) (= (sl.cap %s) 0)))", v.S, v.S, v.S, v.S, v.S, v.S, v.S, v.S), SBool}
+		return Term{fmt.Sprintf("(and (>= (sl.base %s) 0) (>= (sl.off %s) 0) (>= (sl.len %s) 0) (<= (sl.len %s) (sl.cap %s)) (<= (sl.cap %s) 281474976710656) (=> (= (sl.base %s) 0) (= (sl.cap %s) 0)))", v.S, v.S, v.S, v.S, v.S, v.S, v.S, v.S), SBool}
 	case *types.Interface:
 		return Term{fmt.Sprintf("(and (>= (if.tag %s) 0) (=> (= (if.tag %s) 0) (= (if.val %s) 0)))", v.S, v.S, v.S), SBool}
 	case *types.Struct:
